@@ -164,6 +164,18 @@ CLAIMED = {
          "one function up to the first fault, indirect branch or intrinsic. Input functions are unversioned and phi-free. Names used at "
          "two widths are the known finding C10/flow/*/two-widths.",
     technique="Lean-verified validator with an untrusted forward-flow certificate + simulation proof; run on the real SSA outputs"),
+ "C17": dict(
+    category="translation_validation",
+    text="falcon's real stack_pointer_offsets output, for each of the 7 Architecture objects, on generated IL functions over the "
+         "architecture's own stack-pointer scalar and width and on machine-code prologue/epilogue idioms lifted by the real translators, "
+         "is judged by the Lean checker spoCheck; theorem spoCheck_sound: acceptance implies that after every location on every FRun "
+         "from the entry a reported number k satisfies sp = s0 + k in BitVec w; isize_congruent ties falcon's `u64 as isize` to that "
+         "reading; the completion clause is checked directly; rejected maps trigger a search for a concrete contradicting run "
+         "(aligned and unaligned s0).",
+    design_ref="DESIGN.md §6 C17",
+    note="Runs end at Operation::Branch and at intrinsics (claims behind them are vacuous; the strict verdict is informative only); one "
+         "width per name, no SSA; which scalar is the stack pointer is taken from falcon (C20's subject).",
+    technique="Lean-verified certificate checker (linear forms modulo 2^w) run on the real analysis outputs"),
 }
 
 checks = []
